@@ -50,10 +50,11 @@ _COV = re.compile(r'^<(\w+) line (\d+), col \d+ to line \d+, col \d+ of module (
 
 def run_tlc(module_path, cfg_text, tmpdir, env=None, workers=16, simulate=None,
             depth=None, seed=None, timeout=3600, coverage=False, dfs=False,
-            extra=None, heap='8g'):
+            extra=None, heap='8g', decode=True):
     """Run TLC.  module_path: path relative to specs/ (e.g. 'uuid/ShortUuid.tla').
 
     simulate: None or an int (number of behaviours per TLC run; workers forced to given).
+    decode=False: printed JSON values stay JSON text (decoded by the consumer; keeps memory small on huge runs).
     Returns TLCResult.  Raises TLCError on a machinery problem (parse error, crash, timeout).
     """
     full = module_path if os.path.isabs(module_path) else os.path.join(SPECS, module_path)
@@ -98,7 +99,9 @@ def run_tlc(module_path, cfg_text, tmpdir, env=None, workers=16, simulate=None,
         res.timed_out = True
         subprocess.run(['pkill', '-f', meta], stdout=subprocess.DEVNULL, stderr=subprocess.DEVNULL)
     res.wall = time.time() - t0
-    _parse(res)
+    _parse(res, decode)
+    if not decode:
+        res.out = res.out[-20000:]
     import shutil
     shutil.rmtree(meta, ignore_errors=True)
     if res.timed_out:
@@ -112,7 +115,7 @@ def _tail(s, n=60):
     return '\n'.join(s.splitlines()[-n:])
 
 
-def _parse(res):
+def _parse(res, decode=True):
     lines = res.out.splitlines()
     in_trace = False
     trace = []
@@ -156,6 +159,9 @@ def _parse(res):
                 s = json.loads(ln)
             except ValueError:
                 res.raw_printed.append(ln)
+                continue
+            if not decode:
+                res.printed.append(s)
                 continue
             try:
                 res.printed.append(json.loads(s))
